@@ -884,6 +884,33 @@ def gen_c03(rng, n, tier):
             if k < 0.3:
                 g.block()
                 continue
+            if k < 0.45 and g.hub and r.random() < 0.6:
+                # the entry points an account can call directly, offered what only a verified IBTP transaction may bring: in a hub
+                # world the receipt for a request relayed from the other BitXHub (no look-up of a local service stands in the way),
+                # a request of a service over there to a hub-level service here, and the inter-broker's EmitInterchain with a
+                # source id that is not the caller's to use
+                who = r.choice(['u0', 'ca1', 'ca2', 'adm1', 'ca9'])
+                local = r.choice(["c1:s1", "c2:s1", "c4:s1"])
+                kind = r.choice(["receipt", "receipt", "hub-level", "emit", "emit-local"])
+                if kind == "receipt":
+                    idx = g.hub_next.get(("9999:c5:s1", local), 1)
+                    g.ops.append(f"block ibtp ca9 9999:c5:s1 {local} {idx} req {r.choice([0, 0, 5])} - msig3")
+                    g.hub_next[("9999:c5:s1", local)] = idx + 1
+                    g.ops.append("q dump")
+                    g.ops.append(f"block bvm {who} interchain HandleIBTPData ibtp:9999:c5:s1,{local},{idx},{r.choice(['ok', 'ok', 'fail', 'rb'])},0")
+                elif kind == "hub-level":
+                    g.ops.append("q dump")
+                    g.ops.append(f"block bvm {who} interchain HandleIBTPData ibtp:9999:c5:s1,1356:1356:x,{r.choice([1, 1, 2])},req,0")
+                elif kind == "emit":
+                    g.ops.append("q dump")
+                    g.ops.append(f"block bvm {who} broker EmitInterchain s:9999:c5:s1 s:1356:1356:x s:a,b,c s:x s:y s:z")
+                else:
+                    g.ops.append("q dump")
+                    g.ops.append(f"block bvm {who} broker EmitInterchain s:{r.choice(['1356:c1:s1', '1356:1356:0xabc', '9999:c5:s1'])} s:{r.choice(['1356:c2:s1', '9999:c5:s1', '1356:1356:y'])} s:a,b,c s:x s:y s:z")
+                g.ops.append("q dump")
+                g.ops.append("q ic 9999:c5:s1")
+                tags.add("entry:direct:" + kind)
+                continue
             if k < 0.45:
                 f, t = r.sample(SERVICES, 2)
                 idx = g.next_req.get((f, t), 1)
@@ -961,7 +988,9 @@ def mon_c03(h, obs):
                     ch = [k for k in sorted(set(d0) | set(d1)) if d0.get(k) != d1.get(k) and not k.startswith("bal/") and not k.startswith("nonce/")]
                     if ch:
                         hits.append(Hit(f"C03/unverified-ibtp-changed-state/{mon_exec.key_class(ch[0])}", f"block {b.h}: proof={tx.proof} origin={origin} changed {ch[:4]}", detail=b.op))
-            elif tx.kind == "bvm" and tx.contract == "interchain" and tx.method in ("HandleIBTPData", "HandleIBTP"):
+            elif tx.kind == "bvm" and ((tx.contract == "interchain" and tx.method in ("HandleIBTPData", "HandleIBTP")) or
+                                       (tx.contract == "broker" and tx.method == "EmitInterchain" and tx.args and not tx.args[0].startswith("s:1356:1356:"))):
+                # (EmitInterchain: the interchain request of one of the hub's own hub-level services; any other source id is a forged one)
                 if rc.ok:
                     hits.append(Hit("C03/ibtp-processed-without-proof-check/" + tx.method, f"direct call by {tx.signer} succeeded", detail=b.op))
                 if len(b.txs) == 1 and d0 is not None and d1 is not None and not b.rawtimeout:
